@@ -704,6 +704,105 @@ theorem reparse_fold (env : Env) (pf : SPrefs) (re : REnv) (l acc : List Item)
           simp [props_append, props, hb, hkey]
         · rw [h2]; simp [nonProps_append, nonProps, writtenComments]
 
+/-! ## `ReparseOk` from what the front end does on the written fields -/
+
+theorem lower_normalize (x : Cps) : lower (normalize x) = normalize x := by
+  unfold normalize; exact lower_idem _
+
+/-- an entry without comments in its name and priority, as every operation of the block builds it when the source
+has none -/
+structure PlainEntry (p : Pty) : Prop where
+  wf : p.wf = true
+  nameSeq : p.nameSeq = [.str p.lit]
+  litNe : p.lit ≠ []
+  litLower : lower p.lit = p.lit
+  name : p.name = normalize p.lit
+  prio : (p.prioSeq = [] ∧ p.prio = []) ∨
+         (p.prioSeq = [.str [33], .str p.litPrio] ∧ p.litPrio ≠ [] ∧ p.litPrio ≠ [33] ∧
+          normalize p.litPrio = important ∧ p.prio = important)
+
+/-- what the model needs of the front end to read a written declaration back (tokenizer and value grammar are
+parameters): the written name is one IDENT token, the value field has tokens and parses to the stored value, the
+written priority is `!` and one IDENT -/
+structure FrontEndReads (env : Env) (pf : SPrefs) (re : REnv) (p : Pty) : Prop where
+  name : env.tokenize (nameText pf p) = [⟨.ident, nameText pf p⟩]
+  valueToks : env.tokenize (valueField pf re p) ≠ []
+  value : env.parseValue (valueField pf re p) = some p.val
+  prio : p.prioSeq ≠ [] → env.tokenize (prioText pf p) = [⟨.char, [33]⟩, ⟨.ident, (prioText pf p).drop 1⟩]
+
+theorem reparseOk_plain (env : Env) (pf : SPrefs) (re : REnv) (p : Pty) (hp : PlainEntry p)
+    (hf : FrontEndReads env pf re p)
+    (hst : (pf.defaultPropertyName && !pf.keepAllProperties) = true → normalize p.name = p.name) :
+    ReparseOk env pf re p := by
+  -- the written name
+  have hnt : nameText pf p = if pf.defaultPropertyName && !pf.keepAllProperties then p.name else p.lit := by
+    simp [nameText, hp.nameSeq, namePartText]
+  have hnne : nameText pf p ≠ [] := by
+    rw [hnt]
+    split
+    · rw [hp.name]
+      intro hc
+      have : (normalize p.lit).length = 0 := by rw [hc]; rfl
+      have hl : (unesc p.lit).length = 0 := by simpa [normalize, lower] using this
+      have : ∀ s : Cps, s ≠ [] → unesc s ≠ [] := by
+        intro s
+        induction s using unesc.induct with
+        | case1 => intro h; exact absurd rfl h
+        | case2 c => intro _; simp [unesc]
+        | case3 c d rest hc ih => intro _; simp [unesc, hc]
+        | case4 c d rest hc ih => intro _; simp [unesc, hc]
+      exact this p.lit hp.litNe (List.eq_nil_of_length_eq_zero hl)
+    · exact hp.litNe
+  have hlow : lower (nameText pf p) = nameText pf p := by
+    rw [hnt]; split
+    · rw [hp.name]; exact lower_normalize _
+    · exact hp.litLower
+  have hnorm : normalize (nameText pf p) = p.name := by
+    rw [hnt]; split
+    · next h => exact hst h
+    · exact hp.name.symm
+  -- name setter
+  have hsn : setName env { wf := true, nameSeq := [], lit := [], name := [], val := ⟨[], []⟩, prioSeq := [], litPrio := [], prio := [] } [⟨.ident, nameText pf p⟩] =
+      .ok { wf := true, nameSeq := [.str (nameText pf p)], lit := nameText pf p, name := p.name, val := ⟨[], []⟩, prioSeq := [], litPrio := [], prio := [] } := by
+    cases hnm : nameText pf p with
+    | nil => exact absurd hnm hnne
+    | cons c t =>
+      rw [hnm] at hlow hnorm
+      simp [setName, nameStep, litNonEmpty, hlow, hnorm, bind, Except.bind, pure, Except.pure]
+  unfold ReparseOk propFromDecl
+  have hnt2 : (env.tokenize (nameText pf p) == []) = false := by rw [hf.name]; rfl
+  have hvt2 : (env.tokenize (valueField pf re p) == []) = false := by
+    rw [← Bool.not_eq_true]; simpa using hf.valueToks
+  rcases hp.prio with ⟨hps, hpr⟩ | ⟨hps, hl1, hl2, hl3, hpr⟩
+  · have hpt : prioText pf p = [] := by simp [prioText, hps]
+    refine ⟨{ wf := true, nameSeq := [.str (nameText pf p)], lit := nameText pf p, name := p.name, val := p.val, prioSeq := [], litPrio := [], prio := [] }, ?_, rfl, ?_⟩
+    · simp [hf.valueToks, hf.name, hsn, setValue, hf.value, hpt, setPriorityToks, bind, Except.bind, pure,
+        Except.pure, normalize, unesc, lower, important, Pty.empty]
+    · simp [entryKey, hpr, Pty.empty]
+  · have hpt : prioText pf p = 33 :: (if pf.defaultPropertyPriority then p.prio else p.litPrio) := by
+      have : ¬ ([33] = p.litPrio) := fun h => hl2 h.symm
+      by_cases hd : pf.defaultPropertyPriority = true <;> simp [prioText, hps, prioPartTextP, this, hd]
+    have hw : (if pf.defaultPropertyPriority then p.prio else p.litPrio) ≠ [] := by
+      split
+      · rw [hpr]; decide
+      · exact hl1
+    have hwn : normalize (if pf.defaultPropertyPriority then p.prio else p.litPrio) = important := by
+      split
+      · rw [hpr]; decide
+      · exact hl3
+    have hpne : p.prioSeq ≠ [] := by rw [hps]; simp
+    have htk := hf.prio hpne
+    rw [hpt] at htk
+    simp only [List.drop_succ_cons, List.drop_zero] at htk
+    refine ⟨{ wf := true, nameSeq := [.str (nameText pf p)], lit := nameText pf p, name := p.name, val := p.val, prioSeq := [.str [33], .str (if pf.defaultPropertyPriority then p.prio else p.litPrio)], litPrio := (if pf.defaultPropertyPriority then p.prio else p.litPrio), prio := important }, ?_, rfl, ?_⟩
+    · generalize hwd : (if pf.defaultPropertyPriority then p.prio else p.litPrio) = w at *
+      cases w with
+      | nil => exact absurd rfl hw
+      | cons c t =>
+        simp [hf.valueToks, hf.name, hsn, setValue, hf.value, hpt, htk, setPriorityToks, prioStep, hwn, bind,
+          Except.bind, pure, Except.pure, Pty.empty]
+    · simp [entryKey, hpr, Pty.empty]
+
 /-! ## reparse of the variables block at item level -/
 
 theorem vReparse_fold (l : List VItem) (a : VAcc) (hn : (dkeys (a.vars ++ varsOf l)).Nodup) :
